@@ -47,8 +47,51 @@ def validPrim (p : Prim) (d : Val) : Bool :=
 def recFullname (name field : String) : String :=
   if name.contains '.' then name else if field != "" then field ++ "." ++ name else name
 
-mutual
-/-- `_validate(datum, schema, named_schemas, field, raise_errors, options)`; `d = none` is `NoValue` -/
+/-- `all(p(d) for d in xs)` where `p` may raise: short-circuits at the first `False` -/
+def allM (p : Val → R Bool) : List Val → R Bool
+  | [] => pure true
+  | x :: rest => do
+      let b ← p x
+      if b then allM p rest else pure false
+
+/-- the field loop of `_validate_record`; `vd field schema datum` is `_validate` one level down -/
+def fieldsWith (vd : String → Schema → Option Val → R Bool) (full : String) :
+    List Field → List (Val × Val) → R Bool
+  | [], _ => pure true
+  | f :: rest, kv => do
+      let d := match dictGetV kv f.name with
+        | some v => some v
+        | none => f.default
+      let b ← vd (full ++ "." ++ f.name) f.type d
+      if b then fieldsWith vd full rest kv else pure false
+
+/-- does a `(name, value)` tuple name this branch? (`_validate_union`: inline *records* by name,
+    everything else by comparing the candidate itself with the name) -/
+def hintHits (nameV : Val) (b : Schema) : Bool :=
+  match nameV, b with
+  | .str n, .record rn _ _ => n == rn
+  | .str n, .prim p false _ => n == p.name
+  | .str n, .ref r => n == r
+  | _, _ => false
+
+/-- the tuple-notation loop of `_validate_union` -/
+def hintWith (vd : Schema → Option Val → R Bool) (nameV inner : Val) : List Schema → R Bool
+  | [] => pure false
+  | b :: rest => if hintHits nameV b then vd b (some inner) else hintWith vd nameV inner rest
+
+/-- the un-hinted loop of `_validate_union`: first branch that validates; the branches'
+    `ValidationError`s are swallowed -/
+def unionWith (vd : Schema → Option Val → R Bool) (v : Val) : List Schema → R Bool
+  | [] => pure false
+  | b :: rest =>
+    match vd b (some v) with
+    | .ok true => pure true
+    | .ok false => unionWith vd v rest
+    | .error .validation => unionWith vd v rest
+    | .error e => throw e
+
+/-- `_validate(datum, schema, named_schemas, field, raise_errors, options)`; `d = none` is `NoValue`.
+    The fuel bounds the nesting depth only (Python's recursion depth). -/
 def validate (fuel : Nat) (env : Env) (o : VOpts) (raise : Bool) (field : String)
     (s : Schema) (d : Option Val) : R Bool :=
   match fuel with
@@ -68,13 +111,13 @@ def validate (fuel : Nat) (env : Env) (o : VOpts) (raise : Bool) (field : String
           pure (match v with | .str x => syms.contains x | _ => false)
       | .array items =>
           match asSeq? v with
-          | some xs => validateAll fuel env o raise field items xs
+          | some xs => allM (fun x => validate fuel env o raise field items (some x)) xs
           | none => pure false
       | .map values =>
           match v with
           | .dict kv =>
             if kv.all (fun (k, _) => match k with | .str _ => true | _ => false)
-            then validateAll fuel env o raise field values (kv.map (·.2))
+            then allM (fun x => validate fuel env o raise field values (some x)) (kv.map (·.2))
             else pure false
           | _ => pure false
       | .record name fields _ =>
@@ -85,80 +128,22 @@ def validate (fuel : Nat) (env : Env) (o : VOpts) (raise : Bool) (field : String
               | some (.str t) => t == full
               | some _ => false
               | none => true
-            if !typeOk then pure false else validateFields fuel env o raise full fields kv
+            if !typeOk then pure false
+            else fieldsWith (fun fld s d => validate fuel env o raise fld s d) full fields kv
           | _ => pure false
       | .union branches =>
           match v, o.disableTuple with
           | .tuple xs, false =>
             match xs with
-            | [nameV, inner] => validateHint fuel env o raise field branches nameV inner
+            | [nameV, inner] =>
+              hintWith (fun b d => validate fuel env o raise field b d) nameV inner branches
             | _ => throw .value
-          | _, _ => validateUnion fuel env o raise field branches v
+          | _, _ => unionWith (fun b d => validate fuel env o raise field b d) v branches
       | .ref n =>
           match env.get? n with
           | some s' => validate fuel env o raise field s' (some v)
           | none => throw .unknownType)
     if raise && !result then throw .validation
     pure result
-
-/-- `all(_validate(d, items, …) for d in datum)` (short-circuits at the first `False`) -/
-def validateAll (fuel : Nat) (env : Env) (o : VOpts) (raise : Bool) (field : String)
-    (s : Schema) (xs : List Val) : R Bool :=
-  match fuel with
-  | 0 => .error .fuel
-  | fuel+1 =>
-  match xs with
-  | [] => pure true
-  | x :: rest => do
-      let b ← validate fuel env o raise field s (some x)
-      if b then validateAll fuel env o raise field s rest else pure false
-
-def validateFields (fuel : Nat) (env : Env) (o : VOpts) (raise : Bool) (full : String)
-    (fs : List Field) (kv : List (Val × Val)) : R Bool :=
-  match fuel with
-  | 0 => .error .fuel
-  | fuel+1 =>
-  match fs with
-  | [] => pure true
-  | f :: rest => do
-      let d := match dictGetV kv f.name with
-        | some v => some v
-        | none => f.default
-      let b ← validate fuel env o raise (full ++ "." ++ f.name) f.type d
-      if b then validateFields fuel env o raise full rest kv else pure false
-
-/-- the tuple-notation loop of `_validate_union` -/
-def validateHint (fuel : Nat) (env : Env) (o : VOpts) (raise : Bool) (field : String)
-    (bs : List Schema) (nameV inner : Val) : R Bool :=
-  match fuel with
-  | 0 => .error .fuel
-  | fuel+1 =>
-  match bs with
-  | [] => pure false
-  | b :: rest =>
-    let isHit := match nameV, b with
-      | .str n, .record rn _ _ => n == rn
-      | .str n, .prim p false _ => n == p.name
-      | .str n, .ref r => n == r
-      | _, _ => false
-    if isHit then validate fuel env o raise field b (some inner)
-    else validateHint fuel env o raise field rest nameV inner
-
-/-- the un-hinted loop of `_validate_union`: first branch that validates; `ValidationError`s of the
-    branches are swallowed -/
-def validateUnion (fuel : Nat) (env : Env) (o : VOpts) (raise : Bool) (field : String)
-    (bs : List Schema) (v : Val) : R Bool :=
-  match fuel with
-  | 0 => .error .fuel
-  | fuel+1 =>
-  match bs with
-  | [] => pure false
-  | b :: rest =>
-    match validate fuel env o raise field b (some v) with
-    | .ok true => pure true
-    | .ok false => validateUnion fuel env o raise field rest v
-    | .error .validation => validateUnion fuel env o raise field rest v
-    | .error e => throw e
-end
 
 end Validate
